@@ -14,6 +14,7 @@ import (
 // It signs only with its own key and may reuse any signature it has seen.
 type byzState struct {
 	serve    map[hotstuff.Hash]*hotstuff.Block // fabricated blocks it serves to block fetches
+	refuse   map[hotstuff.Hash]bool           // blocks it currently refuses to serve
 	blocks   []*hotstuff.Block
 	qcs      []hotstuff.QuorumCert
 	tcs      []hotstuff.TimeoutCert
@@ -25,7 +26,7 @@ type byzState struct {
 }
 
 func newByzState() *byzState {
-	return &byzState{serve: map[hotstuff.Hash]*hotstuff.Block{}, maxView: 1}
+	return &byzState{serve: map[hotstuff.Hash]*hotstuff.Block{}, refuse: map[hotstuff.Hash]bool{}, maxView: 1}
 }
 
 func (b *byzState) seeSync(si hotstuff.SyncInfo) {
